@@ -40,6 +40,10 @@ def run(chk: Check) -> None:
     mx = [v for v in vectors if v["layout"] == "mixedeol" and not v["dryRun"] and v["workers"] == 1 and len(v["queue"]) == 1]
     mx.sort(key=runspace.vkey)
     sample += [v for v in mx if v not in sample][: chk.pick(10, 80)]
+    bomm = [v for v in vectors if v["manifest"] == "setuppy-bom" and v["layout"] == "lf" and not v["dryRun"] and v["workers"] == 1 and len(v["queue"]) == 1
+            and v["queue"][0].split("/")[-1] in ("url-sandbox", "sandbox-process-creation", "use-defusedxml", "harden-pickle-load")]
+    bomm.sort(key=runspace.vkey)
+    sample += [v for v in bomm if v not in sample][: chk.pick(4, 20)]
     scenarios = [runspace.scenario_for(v, f"C03-{i}") for i, v in enumerate(sample)]
     for scn, res, verdicts in runspace.run_and_validate(chk, scenarios):
         v = scn["_v"]
